@@ -314,6 +314,8 @@ const connSpinLimit = 3
 
 var connSpins int
 
+var connConfirmed = map[string]int{} // failure class -> times it was confirmed by three runs
+
 func confirmed(r *Run, scenario func()) {
 	if connSpins >= connSpinLimit {
 		return
@@ -344,6 +346,30 @@ func confirmed(r *Run, scenario func()) {
 	if sameCounts(seen, r.failSeen) {
 		return
 	}
+	// classes this run raised; a class that has already been confirmed twice by three runs each is not re-run again
+	// (a tree on which most scenarios fail would otherwise cost three times the run and end as a tool error under load)
+	var raised []string
+	settled := true
+	for k, v := range r.failSeen {
+		if v > seen[k] {
+			raised = append(raised, k)
+			if connConfirmed[k] < 2 {
+				settled = false
+			}
+		}
+	}
+	if settled {
+		return
+	}
+	defer func() {
+		if !sameCounts(seen, r.failSeen) {
+			for _, k := range raised {
+				if r.failSeen[k] > seen[k] {
+					connConfirmed[k]++
+				}
+			}
+		}
+	}()
 	first := append([]Failure(nil), r.Failures[nFail:]...)
 	note := func(which string) {
 		cls := ""
